@@ -27,6 +27,7 @@ UNITS = {
                       default_tags={'fancy_layout_interpreting': ['C14'], 'fancy_keys': ['C14'], 'keys': ['C14']}),
     'glue': dict(modules=['key_codes', 'events', 'keys', 'key_transforms', 'fancy_keys', 'physical_keyboard_layouts', 'char_production_map', 'fancy_layout_interpreting'],
                  spec=['trace.rs', 'glue.rs'], verify_only=['glue'], default_tags={'glue': ['C14']}),
+    'udev': dict(modules=['udev_utils'], spec=['sd.rs'], main_file='sd_driver.rs', compile=True, default_tags={'sd': ['C17']}),
     'loop': dict(modules=['key_codes', 'events', 'keys', 'key_transforms', 'tablet_mode_switch_reader', 'remapping_loop'], spec=[],
                  verify_only=['remapping_loop'], default_tags={'remapping_loop': ['C10', 'C12', 'C20', 'C11']}),
 }
@@ -179,11 +180,12 @@ def run_verus_once(path, extra, timeout):
 def run_unit(name, tier='quick', use_cache=True, extra_args=(), log=print):
     cfg = UNITS[name]
     os.makedirs(CACHE, exist_ok=True)
-    asm = A.assemble(cfg['modules'], cfg.get('spec', ()))
+    asm = A.assemble(cfg['modules'], cfg.get('spec', ()), main_file=cfg.get('main_file'))
     path = os.path.join(BUILD, 'tm_%s.rs' % name)
     rlimit = '30' if tier == 'quick' else '60'
     args = ['--rlimit', rlimit] + list(extra_args)
     for vm in cfg.get('verify_only', []): args += ['--verify-module', vm]
+    if cfg.get('compile'): args += ['--compile', '-o', os.path.join(BUILD, 'bin_%s' % name), '-C', 'opt-level=2']
     key = hashlib.sha256((asm.text + '\0' + ' '.join(args) + '\0v3').encode()).hexdigest()[:24]
     cpath = os.path.join(CACHE, '%s-%s.json' % (name, key))
     obls, marks = obligations_of(asm.text, asm.items, cfg)
@@ -191,11 +193,14 @@ def run_unit(name, tier='quick', use_cache=True, extra_args=(), log=print):
         obls = [o for o in obls if o['module'] in cfg['verify_only']]
     lines = asm.text.split('\n')
     res = None
+    binpath = os.path.join(BUILD, 'bin_%s' % name)
     if use_cache and os.path.exists(cpath):
         try:
             res = json.load(open(cpath)); res['cached'] = True
         except Exception:
             res = None
+        if cfg.get('compile') and not (os.path.exists(binpath) and os.path.exists(binpath + '.key') and open(binpath + '.key').read() == key):
+            res = None   # the compiled driver is missing or belongs to another tree: rebuild
     if res is None:
         open(path, 'w').write(asm.text)
         if asm.problems:
@@ -225,6 +230,9 @@ def run_unit(name, tier='quick', use_cache=True, extra_args=(), log=print):
                         keep.append(d)
                     res['diags'] = keep
         res['cached'] = False
+        if cfg.get('compile'):
+            if res.get('rc') == 0 and os.path.exists(binpath): open(binpath + '.key', 'w').write(key)
+            elif os.path.exists(binpath + '.key'): os.remove(binpath + '.key')
         json.dump(res, open(cpath, 'w'))
     # attribute diagnostics
     failures = []
@@ -250,7 +258,7 @@ def run_unit(name, tier='quick', use_cache=True, extra_args=(), log=print):
                              item_changed=bool(it and it.get('changed_tokens'))))
     ur = UnitResult()
     ur.name = name; ur.asm = asm; ur.path = path; ur.res = res; ur.obligations = obls; ur.failures = failures
-    ur.hard = res.get('hard', []); ur.marks = marks
+    ur.hard = res.get('hard', []); ur.marks = marks; ur.binpath = binpath if cfg.get('compile') else None; ur.key = key
     return ur
 
 
